@@ -39,7 +39,8 @@ class Facts:
                 stopped = True
             if op[0] == "connect" and not stopped:
                 self.connect_op.append(i)
-        assert len(self.connect_op) == len(self.addr), (self.connect_op, self.addr)
+        if len(self.connect_op) != len(self.addr):
+            raise RuntimeError("connection numbering does not match the observed connections: %r %r" % (self.connect_op, self.addr))
         self.verify_op: Dict[int, int] = {}
         self.lose_op: Dict[int, int] = {}
         for i, op in enumerate(ops):
@@ -372,6 +373,32 @@ def oracle_c12(f: Facts) -> List[Tuple[str, str]]:
                     elif src is None:
                         sig = "C12:change-never-delivered"
                     bad.append((sig, f"at quiescence after op {i} connection #{p} (subscribed to {x} since its last change at op {j}) last learned {learned} ({src}) but the value is {cur}"))
+
+    # quiescence, for connections the CODE no longer lists as subscribers although they are: "subscribed" is
+    # what the controller asked for and was acknowledged (own requests), not the accessory's own table --
+    # a live, registered, verified connection that subscribed before the last change, did not make it, has
+    # not unsubscribed and is missing from the table is owed the current value like any other
+    for i, op in enumerate(f.ops):
+        if not (op[0] == "advance" and op[1] >= WINDOW):
+            continue
+        d = f.dig[i]
+        for a_s, p in d["reg"].items():
+            a = int(a_s)
+            if p not in f.verify_op or p in f.lose_op and f.lose_op[p] <= i:
+                continue
+            for x in sorted({c[1] for c in chg}):
+                if x in f.nul or a in d["topics"].get(str(x), []):
+                    continue  # listed: judged by the first form
+                start = own_sub.since(p, x, i + 1)
+                last_changes = [c for c in chg if c[1] == x and c[0] <= i]
+                if start is None or not last_changes or not start < last_changes[-1][0] or last_changes[-1][3] == p:
+                    continue
+                learned, src = learned_value(f, p, x, i)
+                cur = d["values"][x]
+                if learned != cur and not any(s_[0] == "C12:subscriber-dropped-change-never-delivered" for s_ in bad):
+                    bad.append(("C12:subscriber-dropped-change-never-delivered",
+                                f"at quiescence after op {i} connection #{p} (address {a}) subscribed to {x} at op {start} (acknowledged, never unsubscribed) "
+                                f"but is not in the subscription table; the change at op {last_changes[-1][0]} never reached it: last learned {learned} ({src}), value {cur}"))
 
     # quiescence, second form: whatever a subscribed connection has learned about x SINCE ITS CURRENT
     # SUBSCRIPTION BEGAN (latest event entry or own acknowledged write), if anything, is the current value
